@@ -1018,6 +1018,27 @@ fn run_create(spec: &Spec, stub: &str) {
             show_table("fds_after_err");
         }
     }
+    if let Some(p2) = spec.get("relaunch_path") {
+        // the same launch once more in the same process after the parent's PATH has changed
+        if p2 == "unset" {
+            std::env::remove_var("PATH");
+        } else {
+            std::env::set_var("PATH", OsString::from_vec(hexdec(p2)));
+        }
+        let cfg = config_of(spec, &mut rcs);
+        LOGGING.store(true, Ordering::SeqCst);
+        mark("relaunch");
+        let r = Popen::create(&argv, cfg);
+        LOGGING.store(false, Ordering::SeqCst);
+        match r {
+            Ok(mut p) => {
+                println!("result2 ok");
+                drop(p.stdin.take());
+                p.wait().ok();
+            }
+            Err(e) => println!("result2 err {}", show_err(&e)),
+        }
+    }
     drop(rcs);
 }
 
